@@ -33,12 +33,14 @@ type c10RunSpec struct {
 }
 
 func c10Object12() string {
-	// 40 keys (the name is historic): beyond any small-object fast path; several longer than a machine word and equal in their first 8 bytes
+	// 48 keys (the name is historic): beyond any small-object fast path; several longer than a machine word and equal in their first 8 bytes
 	keys := []string{"k07", "k01", "k12", "k03", "k09", "k05", "k11", "k02", "k08", "k04", "k10", "k06"}
 	for i := 13; i <= 34; i++ {
 		keys = append(keys, fmt.Sprintf("k%02d", (i*7)%22+13))
 	}
 	keys = append(keys, "created_by", "created_at", "customer_zip", "customer_name", "created_at_utc", "customer_zipcode")
+	// keys of exactly 8 bytes next to longer keys that begin with them
+	keys = append(keys, "language", "languages_url", "customer", "created_", "abcdefgh", "abcdefghi", "abcdefgh_", "abcdefgh0")
 	parts := make([]string, len(keys))
 	for i, k := range keys {
 		parts[i] = fmt.Sprintf("%q:%d", k, i)
@@ -339,7 +341,7 @@ func init() {
 	n := len(c10Runs)
 	register(&fw.Prop{
 		ID: "C10",
-		Rule: "alphabet of 33 runs that touch every piece of process-global state (method lookups on all four prototypes, nested and failing method calls, a method cell called without a fresh lookup, depth and loop limits, syntax and JSON errors, selectors, a 40-key object, object members addressed by both zeros in both orders, JSON output, literals and argument lists whose parts have side effects, two programs of one shape with different literals); " +
+		Rule: "alphabet of 33 runs that touch every piece of process-global state (method lookups on all four prototypes, nested and failing method calls, a method cell called without a fresh lookup, depth and loop limits, syntax and JSON errors, selectors, a 48-key object, object members addressed by both zeros in both orders, JSON output, literals and argument lists whose parts have side effects, two programs of one shape with different literals); " +
 			"(i) explicit-state breadth-first search over run histories with the fingerprint of the package-level state (hook VerifGlobals) as state: from every reachable state every run is executed and compared with its fresh-process result, until the reachable set closes; " +
 			"(ii) every history of <= L runs in its own fresh process without any reset, every run compared with (iii); (iii) each run as the first run of a fresh process, 25 times, plus 24 in-process repetitions and 12 invocations of the real binary: all byte-identical; " +
 			"the package-level variables of /repo/src are listed with go/parser on every run: one that is neither fingerprinted nor reviewed as never-assigned withdraws the closure argument (recorded, never an alarm); states = global-state fingerprints reached; non-trivial = same",
@@ -350,7 +352,7 @@ func init() {
 			}
 			return "global-state graph closed; all histories of <= 3 runs over 33 runs, each in a fresh process"
 		},
-		Assumptions: []string{"no model: the oracle is equality with the fresh-process execution", "Go's map iteration randomisation is not controlled: 40-key objects and 24+ repetitions make an order-dependent output differ with overwhelming probability", "the closure argument of (i) assumes VerifGlobals sees all mutable package-level state; the go/parser scan withdraws it otherwise"},
+		Assumptions: []string{"no model: the oracle is equality with the fresh-process execution", "Go's map iteration randomisation is not controlled: 48-key objects and 24+ repetitions make an order-dependent output differ with overwhelming probability", "the closure argument of (i) assumes VerifGlobals sees all mutable package-level state; the go/parser scan withdraws it otherwise"},
 		Run: func(c *fw.Ctx, u int) {
 			switch {
 			case u == 0:
